@@ -267,6 +267,9 @@ class SimConn:
             if self.sim.hsteps > self.sim.hcap:
                 self.sim.hcap = 1 << 60     # report once; what follows (cleanup) runs normally
                 raise NoProgress('the harness thread executed more than %d statements: a call does not return' % self.sim.hcap)
+        cb = getattr(self.sim, 'on_stmt', None) if ACTIVE is self.sim else None
+        if cb is not None:
+            cb(self, stmt)      # "meanwhile, another process ..." right before this statement (harness-thread runs only)
         before = self.real.in_transaction
         cur = self.real.execute(stmt, params)
         if before and not self.real.in_transaction and ACTIVE is self.sim:
